@@ -1,6 +1,7 @@
 import CookModel.Lemmas.TextLaws
 import CookModel.Lemmas.LexLaws
 import CookModel.Lemmas.SimBlocks
+import CookModel.Lemmas.SimEvents
 /-
   C17  Line endings, comments and blank space do not change the recipe.
 
@@ -115,6 +116,64 @@ theorem C17_splitter_kinds_only (R : Tok → Tok → Prop) (hR : ∀ a b, R a b 
     (fuel : Nat) (l m : List Tok) (h : LRel R l m) : LRel (LRel R) (allBlocks fuel l) (allBlocks fuel m) :=
   sim_allBlocks hR fuel h
 
+/-- **CRLF at event level (partial: inputs without component markers).**
+    `EvSim uws e' e` relates two parser events with the same rendered content: same constructor
+    (`Start`/`End` of the same block kind, `Text`, `Metadata`, `Section`, `Error`, `Warning`),
+    texts related by `TextSim` (same number of fragments, soft breaks at the same places, equal
+    fragment texts — hence equal `Text::text()`, `text_trimmed()`, `is_text_empty()`, see
+    `C17_textSim_content`), diagnostics with the same severity, stage, kind and number of labels.
+    Source spans and label positions are not compared (they do shift).
+    Statement: for every character table with `CrlfSpec` and in which CR and LF are Unicode white
+    space (`UwsNL`, what `str::trim` uses), every extension set, both values of the
+    old-style-metadata flag, every input body `s` without backslash whose token stream contains
+    no `@`, `#`, `~` token, lexed at any offsets: running the block parsers over all blocks of the
+    CRLF-converted body produces an event list of the same length as for `s`, related event by
+    event by `EvSim`.  This covers metadata lines (valid or not, `[mode]` keys under MODES), section
+    lines (valid or with trailing junk), `>` text blocks, multi-line text-only steps, and their
+    warnings/errors.  MISSING for the full clause: blocks containing components (`@ # ~`): their
+    parsers (`ingredient`, `cookware`, `timer`, quantities, modifiers) are not yet covered by the
+    relational layer of `Lemmas/SimParser.lean`; and the front-matter split. -/
+theorem C17_crlf_events_partial {α : Type} [Arith α] (cs : CharSpec) (hcs : CrlfSpec cs) (hu : UwsNL cs)
+    (ext : Ext) (oldStyle : Bool) (s : List Char) (hs : CrlfSafe s) (off off' : Nat)
+    (hnm : NoMarker (lexFrom cs off s))
+    (acc' acc : Array (Ev α) × Option String) (he : LRel (EvSim cs.uws) acc'.1.toList acc.1.toList) :
+    LRel (EvSim cs.uws)
+      ((allBlocks ((lexFrom cs off' (crlf s)).length + 1) (lexFrom cs off' (crlf s))).foldl
+        (fun a b => runBlock cs ext oldStyle b a.1 a.2) acc').1.toList
+      ((allBlocks ((lexFrom cs off s).length + 1) (lexFrom cs off s)).foldl
+        (fun a b => runBlock cs ext oldStyle b a.1 a.2) acc).1.toList :=
+  crlf_events cs hcs hu ext oldStyle s hs off off' hnm he
+
+/-- the same for the whole `PullParser` run on inputs in which neither variant has a front matter
+    block (the front-matter split under CRLF conversion is not modelled relationally yet) -/
+theorem C17_crlf_pull_events_partial {α : Type} [Arith α] (cs : CharSpec) (hcs : CrlfSpec cs) (hu : UwsNL cs)
+    (ext : Ext) (s : List Char) (hs : CrlfSafe s) (hnm : NoMarker (lex cs s))
+    (h1 : parseFrontmatter cs s = none) (h2 : parseFrontmatter cs (crlf s) = none) :
+    LRel (EvSim cs.uws) (pullEvents (α := α) cs ext (crlf s)).1.toList (pullEvents (α := α) cs ext s).1.toList :=
+  crlf_pullEvents cs hcs hu ext s hs hnm h1 h2
+
+/-- the token-level side condition of the two theorems above follows from a character-level one:
+    an input without the characters `@`, `#`, `~` has no component-marker token -/
+theorem C17_no_marker_chars (cs : CharSpec) (off : Nat) (s : List Char) (h : '@' ∉ s ∧ '#' ∉ s ∧ '~' ∉ s) :
+    NoMarker (lexFrom cs off s) := lexFrom_noMarker cs off s h
+
+/-- what `TextSim` (inside `EvSim`) guarantees about two texts: everything the analysis reads from a
+    `Text` except its span -/
+theorem C17_textSim_content (cs : CharSpec) (t' t : Text) (h : TextSim cs.uws t' t) :
+    t'.text = t.text ∧ t'.trimmed cs = t.trimmed cs ∧ t'.outerTrimmed cs = t.outerTrimmed cs ∧
+    t'.isTextEmpty cs = t.isTextEmpty cs ∧ t'.frags.length = t.frags.length :=
+  ⟨h.text, h.trimmed, h.outerTrimmed, h.isTextEmpty, LRel.length_eq h⟩
+
+/-- The parser law behind it, for ANY two blocks related token by token by `TokSim` (same kinds,
+    same texts except comments, newline tokens spelled `"\n"` or `"\r\n"` on either side, arbitrary
+    offsets): if the block has no component marker, `BlockParser` (`parse_block` + `finish`)
+    appends related events to related queues. -/
+theorem C17_block_parser_offset_blind_partial {α : Type} [Arith α] (cs : CharSpec) (hu : UwsNL cs)
+    (b' b : List Tok) (hb : LRel TokSim b' b) (hnm : NoMarker b) (ext : Ext) (oldStyle : Bool)
+    (evs' evs : Array (Ev α)) (he : LRel (EvSim cs.uws) evs'.toList evs.toList) (p' p : Option String) :
+    LRel (EvSim cs.uws) (runBlock cs ext oldStyle b' evs' p').1.toList (runBlock cs ext oldStyle b evs p).1.toList :=
+  runBlock_rel hu hb hnm ext oldStyle he p' p
+
 /-! non-vacuity: a character table satisfying `CrlfSpec`, an input satisfying `CrlfSafe` on which
     `crlf` does something, and the excluded shape -/
 
@@ -132,5 +191,18 @@ example : (lex toyCharSpec (crlf ['a', '\n', '-', '-', 'x', '\n'])).map tokAbs =
 example : (lex toyCharSpec (crlf ['a', '\\', '\n'])).map tokAbs ≠ (lex toyCharSpec ['a', '\\', '\n']).map tokAbs := by
   simp [lex, lexFrom_cons, lexOne, crlf, crlfAux, tokAbs, crlfVolatile, singleKind, singleTable,
     toyCharSpec, isAsciiDigit, lexFrom]
+
+/-! non-vacuity for the event-level theorems: the toy table treats CR and LF as white space; an
+    input with a metadata line, a section line, a two-line step and a text block, without front
+    matter before and after conversion -/
+example : UwsNL toyCharSpec := ⟨by decide, by decide⟩
+example : CrlfSafe ">> k: v\n\n= s =\n\nline one\nline two\n\n> note\n".toList := by decide
+example : '@' ∉ ">> k: v\n\n= s =\n\nline one\nline two\n\n> note\n".toList ∧
+    '#' ∉ ">> k: v\n\n= s =\n\nline one\nline two\n\n> note\n".toList ∧
+    '~' ∉ ">> k: v\n\n= s =\n\nline one\nline two\n\n> note\n".toList := by decide
+example : (parseFrontmatter toyCharSpec ">> k: v\n\n= s =\n\nline one\nline two\n\n> note\n".toList).isNone = true := by
+  decide
+example : (parseFrontmatter toyCharSpec (crlf ">> k: v\n\n= s =\n\nline one\nline two\n\n> note\n".toList)).isNone = true := by
+  decide
 
 end Cook
